@@ -75,13 +75,31 @@ def run(ck):
         copies = {d["var"] for d in ev.func.events("decl") if strip_tmpl((d.get("init") or {}).get("f") or "").endswith("RequestEntry::onDone")}
         return rv.get("v") in copies
 
+    def invoked_params(fn_):
+        names = {p_["name"] for p_ in fn_.params}
+        return {(e.get("recv") or {}).get("v") for e in fn_.events("call") if e.base_callee() == "std::function::operator()" and (e.get("recv") or {}).get("v") in names}
+
+    def is_done_event(ev):
+        """the completion callback is run: directly, or by a helper of the connection that is handed it and invokes that parameter"""
+        if is_done_call(ev):
+            return True
+        if ev["k"] != "call" or not (ev.get("callee") or "").startswith(CONN):
+            return False
+        copies = {d["var"] for d in ev.func.events("decl") if strip_tmpl((d.get("init") or {}).get("f") or "").endswith("RequestEntry::onDone")}
+        for g_ in prog.resolve_call(ev):
+            inv = invoked_params(g_)
+            for i, a in enumerate(ev.get("args", [])):
+                if i < len(g_.params) and g_.params[i]["name"] in inv and (a.get("v") in copies or strip_tmpl(a.get("f") or "").endswith("RequestEntry::onDone")):
+                    return True
+        return False
+
     def is_clean(ev):
         if is_reset(ev):
             return True
         return ev["k"] == "call" and (ev.get("callee") or "") in (CONN + "close", CONN + "handleError")
     for name in ("handleResponsePacket", "handleError", "handleTimeout"):
         g = lib.single(prog, CONN + name)
-        dones = [e for e in g.events("call") if is_done_call(e)]
+        dones = [e for e in g.events("call") if is_done_event(e)]
         if name != "handleResponsePacket":
             ck.require(dones, "onDone() call not found in Connection::%s" % name)
         for e in dones:
@@ -109,13 +127,12 @@ def run(ck):
           "parsed as the beginning of the next one")
     # complete response parsed => parser reset, whether or not a request was waiting
     g = lib.single(prog, CONN + "handleResponsePacket")
-    done_tests = [b for b in g.blocks.values() if b.term and b.term.get("k") == "if" and ("c:" + PB + "parse") in (b.term.get("refs") or [])
-                  and "e:" + H + "Private::State::Done" in (b.term.get("refs") or [])]
-    ck.require(done_tests, "parse() == State::Done test not found in handleResponsePacket")
-    for b in done_tests:
-        arm = b.succs[0] if b.term.get("cmp") == "==" else b.succs[1]
+    done_edges = lib.value_edges(g, PB + "parse", "e:" + H + "Private::State::Done", ("==",))
+    ck.require(done_edges, "parse() == State::Done test not found in handleResponsePacket")
+    for bid, k in done_edges:
+        arm = g.blocks[bid].succs[k]
         bad = [x for x in cfg.exits_without(g, is_clean, start_block=arm) if x.kind != "throw"]
-        ck.ob("C04-R1", "Connection::handleResponsePacket/Done-resets", not bad, "%s:%s" % (g.file, b.term.get("l")), g,
+        ck.ob("C04-R1", "Connection::handleResponsePacket/Done-resets", not bad, "%s:%s" % (g.file, g.blocks[bid].term.get("l")), g,
               "a completely parsed response always resets the parser" if not bad else
               "a complete response parsed while no request is waiting leaves the parser in its Done state (the next response is parsed against it)")
 
